@@ -13,7 +13,8 @@
      roundtrip_safe        the document avoids the three strict-decoder defects             (Model/GoSemSpec01.v)
      is_unmodelled _ = false   the model has an answer (inline struct fields have no template case). *)
 From Coq Require Import List String ZArith Bool.
-From Cog Require Import Model.GoSem Model.GoSemSpec08 Model.GoSemSpec08F Model.GoSemSpec01 Proofs.GoSemC08Proofs.
+From Cog Require Import Model.GoSem Model.GoSemSpec08 Model.GoSemSpec08F Model.GoSemSpec01 Proofs.GoSemC08Proofs
+     Model.Src Model.FrontEnd Model.FrontEndSpec Proofs.FrontEndWitness Proofs.FrontEndFields.
 Import ListNotations.
 Local Open Scope string_scope.
 
@@ -88,3 +89,21 @@ Print Assumptions strict_rejects_only_bad_partial.
 Example c08_nonvacuous : exists ctx p n v, typed_obj ctx p n v /\ ctx_alias_free ctx = true /\
   ctx_named ctx = true /\ ctx_cdirect ctx = true /\ violations_object ctx p n v <> [].
 Proof. exact GoSemC08Proofs.c08_nonvacuous_weak. Qed.
+
+(* ---------------- "what the schema forbids" = "what the IR forbids": the JSON Schema front-end keeps the
+   constraints (Model/FrontEnd.v parse_jsonschema, compared with the real parser on every run).
+   field_kept s obj f: bounds, lengths, required-ness and nullability of member f of definition obj appear on the
+   corresponding field of the parsed IR. ---------------- *)
+Theorem parse_jsonschema_keeps_constraints_refuted_full :
+  ~ (forall s obj fs f, src_wf s = true -> In (obj, SStruct fs) (src_defs s) -> In f fs -> field_kept s obj f = true).
+Proof. exact parse_jsonschema_keeps_constraints_refuted. Qed.
+Print Assumptions parse_jsonschema_keeps_constraints_refuted_full.
+(* the only shape that loses its constraints is the constrained `[T, "null"]` type array (open finding
+   C08-jsonschema-nullable-scalar-type-array-drops-constraints); field_union_plain excludes a one-branch union,
+   an artefact of the specification, not of cog *)
+Theorem parse_jsonschema_keeps_constraints_partial :
+  forall s obj fs f, src_wf s = true -> In (obj, SStruct fs) (src_defs s) -> In f fs ->
+    (sf_nullta f = false \/ src_constraints (sf_type f) = []) -> field_union_plain f = true ->
+    field_kept s obj f = true.
+Proof. exact parse_jsonschema_keeps_constraints_partial_weak. Qed.
+Print Assumptions parse_jsonschema_keeps_constraints_partial.
